@@ -62,6 +62,31 @@ def handle (s : S) : List String → S × String
         (s, s!"specviol spec={m} impl={impl}")
       else (s, "ok")
     | _, _ => (s, "bad-op")
+  -- ninvoke <entry> <kind> <pos> <headfail> r=<id>:<kind> esc=… trace=… closed=…   (open channel, reacting exception handler)
+  | ["ninvoke", entry, kind, pos, hf, rx, esc, trace, closed] =>
+    let rxs := (rx.drop 2).toString.splitOn ":"
+    match kind.toNat?.bind Kind.ofNat?, pos.toNat?, rxs with
+    | some k, some i, [rid, rkS] =>
+      match rid.toNat?, rkS.toNat?.bind Kind.ofNat? with
+      | some rid, some rk =>
+        let headFails := if hf == "-" then none else parseVal hf
+        let r := if rid == 0 then 0 else (s.hs.findIdx? (·.h.id == rid)).map (· + 1) |>.getD 0
+        let res := if entry == "ctx" then ctxInvokeR s.hs headFails k i r rk else invokeR s.hs headFails k r rk
+        let idOf (p : Nat) : Nat := ((s.hs[p-1]?).map (·.h.id)).getD 0
+        let evs := res.trace.filter (fun e => match e with | .visit _ p => p != 0 && p != s.hs.length + 1 | .exc p _ => p != 0 && p != s.hs.length + 1)
+        let m := if evs.isEmpty then "-" else ",".intercalate (evs.map (fun e => match e with
+          | .visit k p => s!"v{k.idx}:{p}:{idOf p}"
+          | .exc p v => s!"x{p}:{idOf p}={showVal (some v)}"))
+        let want := s!"esc=0 trace={m} closed={showVal res.closedWith}"
+        let got := s!"{esc} {trace} {closed}"
+        if esc == "esc=hang" then (s, s!"specviol the call did not return: the channel is no longer usable although it was not closed ({entry} kind {kind})")
+        else if esc == "esc=1" then (s, s!"specviol panic escaped into the caller: {got}")
+        else if want != got then (s, s!"specviol spec={want} impl={got}")
+        else
+          let vals := (res.trace.filterMap (fun e => match e with | .exc _ v => some v | _ => none)).eraseDups
+          (s, if vals.length ≥ 2 then "ok nested-exception" else if vals.length = 1 then "ok exception" else "ok")
+      | _, _ => (s, "bad-op")
+    | _, _, _ => (s, "bad-op")
   | _ => (s, "bad-op")
 
 end Driver.C07
